@@ -20,7 +20,7 @@ for root, dirs, files in os.walk(src):
 frag_dir = os.environ.get('VERIF_OVERLAY_FRAGS', '')
 for d in filter(None, frag_dir.split(':')):
     for f in sorted(os.listdir(d)):
-        if f.endswith('.json'):
+        if f == 'overlay.json':
             rep.update(json.load(open(os.path.join(d, f)))['Replace'])
 os.makedirs(os.path.dirname(out), exist_ok=True)
 json.dump({'Replace': rep}, open(out, 'w'), indent=0)
